@@ -258,7 +258,8 @@ SubStep(st, fr) ==
                   \o <<F1("retsub", 0)>>)
     [] o = "of_fn" \/ o = "start" ->
          Push(st, (IF PB(x) > 0 THEN <<Bump(PB(x))>> ELSE <<>>) \o <<CallN(n, PV(x)), CallC(n), F1("retsub", 0)>>)
-    [] o = "from_iter" \/ o = "repeat" -> Push(st, <<Fr("iter", n, "", I(1), x), F1("retsub", 0)>>)
+    [] o = "from_iter" \/ o = "repeat" ->    \* the counting source (b = 7) also counts its conversion into an iterator: at subscription
+         Push(st, (IF o = "from_iter" /\ PB(x) = 7 THEN <<Bump(8)>> ELSE <<>>) \o <<Fr("iter", n, "", I(1), x), F1("retsub", 0)>>)
     [] o = "empty" -> Push(st, <<CallC(n), F1("retsub", 0)>>)
     [] o = "never" -> Push(st, NeverFrames(n) \o <<F1("retsub", 0)>>)
     [] o = "throw" -> Push(st, <<CallE(n, PV(x)), F1("retsub", 0)>>)
